@@ -11,46 +11,9 @@ Wraps == CASE Ctx = "bare" -> <<"bare">>
            [] Ctx = "segwitv0" -> <<"wsh", "shwsh">>
            [] Ctx = "tap" -> <<"tr">>
 
-CONSTANTS CompStride,  \* 0: no composites; else the pools are thinned to every CompStride-th element
-          CompKeep,    \* of the typed composites keep every CompKeep-th
-          CompSeed     \* offset of the kept residue classes (from VERIF_SEED)
-
 BAsts0 == {x.a : x \in {y \in WTUpTo(MaxNodes) : y.t.b = "B" /\ KeyCanonical(y.a)}}
 
-(***************************************************************************)
-(* Larger miniscripts than the exhaustive node bound reaches: every binary *)
-(* combinator over the (<= 3 node) x (<= 2 node) pools in both orders,     *)
-(* andor over the <= 2 node pool, thresh over three <= 2 node children;    *)
-(* type-checked by SpecType, then thinned deterministically by stride.     *)
-(***************************************************************************)
-\* the pools are thinned BEFORE combination (cost is quadratic / cubic in pool size):
-\* every CompStride-th element, residue class chosen by the seed
-Thin(S, stride, off) == LET Q == SetToSeq(S) IN {Q[q] : q \in {r \in 1..Len(Q) : r % stride = off % stride}}
-P3 == IF CompStride = 0 THEN {} ELSE Thin(WTUpTo(IF MaxNodes < 3 THEN MaxNodes ELSE 3), CompStride, CompSeed)
-P2 == IF CompStride = 0 THEN {} ELSE Thin(WTUpTo(2), (CompStride + 1) \div 2, CompSeed)
-P2all == IF CompStride = 0 THEN {} ELSE WTUpTo(2)
-CompTyped ==
-  IF CompStride = 0 THEN {}
-  ELSE OkOnly({T(Bin(f, x.a, y.a), SpecBinType(f, x.t, y.t, Ctx)) : f \in BinFrags, x \in P3, y \in P2})
-       \cup OkOnly({T(Bin(f, x.a, y.a), SpecBinType(f, x.t, y.t, Ctx)) : f \in BinFrags, x \in P2, y \in P3})
-       \cup UNION {OkOnly({T(Tern("andor", x.a, y.a, z.a), SpecAndOrType(x.t, y.t, z.t, Ctx)) : y \in P2, z \in P2})
-                   : x \in {q \in P2all : q.t.b = "B" /\ Has(q.t, {"d", "u"})}}
-       \cup UNION {OkOnly({T(Thresh(k, <<x.a, y.a, z.a>>), SpecThreshType(k, <<x.t, y.t, z.t>>)) :
-                             k \in 1..3, y \in {q \in P2all : q.t.b = "W" /\ Has(q.t, {"d", "u"})},
-                             z \in {q \in P2 : q.t.b = "W" /\ Has(q.t, {"d", "u"})}})
-                   : x \in {q \in P2 : q.t.b = "B" /\ Has(q.t, {"d", "u"})}}
-CompB == {x \in CompTyped : x.t.b = "B" /\ NodeCount(x.a) > MaxNodes /\ KeyCanonical(x.a)}
-CompKept == IF CompStride = 0 THEN {} ELSE {x.a : x \in Thin(CompB, CompKeep, CompSeed)}
-\* a second level: composites under or_d / or_b / and_b / or_i with a small sibling (dissatisfied
-\* and satisfied positions of the composite both occur)
-Sib == {q \in P2 : KeyCanonical(q.a)}
-Comp2Kept == IF CompStride = 0 THEN {}
-             ELSE LET lvl1 == Thin(CompB, CompKeep * 8, CompSeed + 1)
-                      lvl2 == {z \in OkOnly({T(Bin(f, x.a, s.a), SpecBinType(f, x.t, s.t, Ctx)) : f \in {"or_d", "or_b", "and_b", "or_i"}, x \in lvl1, s \in Sib})
-                                 : z.t.b = "B" /\ KeyCanonical(z.a)}
-                  IN {y.a : y \in Thin(lvl2, 6, CompSeed)}
-
-BAsts == BAsts0 \cup CompKept \cup Comp2Kept
+BAsts == BAsts0 \cup CompKept \cup Comp2Kept \cup PrefixedKept
 
 WorldJson(w) == [sigs |-> SetToSeq(w.sigs), pre |-> SetToSeq(w.pre), env |-> w.env]
 
@@ -61,5 +24,5 @@ CaseSeq ==
       worlds |-> LET W == SetToSeq(WorldsOf(S[i])) IN [j \in 1..Len(W) |-> WorldJson(W[j])]]]
 
 ASSUME ndJsonSerialize(IOEnv.OUT, CaseSeq)
-ASSUME PrintT("GEN " \o ToJson(<<"cases", Len(CaseSeq), Cardinality(BAsts0), Cardinality(CompKept), Cardinality(Comp2Kept)>>))
+ASSUME PrintT("GEN " \o ToJson(<<"cases", Len(CaseSeq), Cardinality(BAsts0), Cardinality(CompKept), Cardinality(Comp2Kept), Cardinality(PrefixedKept)>>))
 =============================================================================
